@@ -37,6 +37,7 @@ inductive Prim where
   | ctor (union case : String)   -- New_U_C(…) / New_U_C
   | println | printf1 | sprintf1 -- frt.Println / frt.Printf1 fmt / frt.Sprintf1 fmt
   | concat                       -- strings.Concat
+  | interp (parts : List (Option String))   -- frt.SInterP(format, holes…): `some text` / `none` = next hole
 deriving BEq, Repr, DecidableEq, Inhabited
 
 mutual
@@ -53,11 +54,13 @@ inductive Expr where
   | pipe (a f : Expr)                                 -- a |> f
   | hof (h : String) (f : Expr) (args : List Expr)    -- slice.Map / Filter / Fold  f  args
   | matchE (t : Expr) (arms : List Arm)               -- match in expression position
+  | matchSE (t : Expr) (arms : List SArm)             -- match on a string, expression position
 inductive Body where
   | mk (ss : List Stmt) (tail : Tail)
 inductive Tail where
   | ret (e : Expr)
   | matchT (t : Expr) (arms : List Arm)               -- match in return position
+  | matchST (t : Expr) (arms : List SArm)             -- match on a string in return position
 inductive Stmt where
   | let1 (x : String) (e : Expr)
   | let2 (x y : String) (e : Expr)
@@ -65,6 +68,8 @@ inductive Stmt where
   | ifonly (c : Expr) (b : Body)
 inductive Arm where
   | mk (case : String) (bind : Option String) (b : Body)   -- case "_" is the default arm
+inductive SArm where
+  | mk (pat : Option String) (b : Body)                -- string literal arm; `none` = default
 end
 
 instance : Inhabited Expr := ⟨.lit .unit⟩
@@ -100,12 +105,15 @@ inductive GBody where
 inductive GTail where
   | ret (e : GExpr)                                    -- return e   (or a final expression statement)
   | switch (t : GExpr) (cases : List GCase)            -- switch _v := (t).(type) { … }
+  | switchS (t : GExpr) (cases : List GSCase)          -- switch (t) { case "lit": … default: … }
 inductive GStmt where
   | define (x : String) (e : GExpr)                    -- x := e
   | define2 (x y : String) (e : GExpr)                 -- x, y := frt.Destr2(e)
   | exec (e : GExpr)
 inductive GCase where
   | mk (case : String) (bind : Option String) (b : GBody)  -- case U_C: bind := _v.Value; b   ("_" = default)
+inductive GSCase where
+  | mk (pat : Option String) (b : GBody)
 end
 
 instance : Inhabited GExpr := ⟨.lit .unit⟩
@@ -161,6 +169,14 @@ def format1 (fmt : String) (v : FO) : String :=
 
 def fieldOf (fs : List (String × FO)) (f : String) : Option FO := (fs.find? (fun p => p.1 == f)).map (·.2)
 
+/-- interpolation: the text parts verbatim, each hole replaced by the display of the next argument -/
+def interpFO : List (Option String) → List FO → Option String
+  | [], [] => some ""
+  | [], _ :: _ => none
+  | some t :: rest, vs => (interpFO rest vs).map (t ++ ·)
+  | none :: rest, v :: vs => (interpFO rest vs).map (display v ++ ·)
+  | none :: _, [] => none
+
 /-- the one semantics of primitives: `none` = stuck (ill-typed or run-time panic) -/
 def primFO : Prim → List FO → Option (Trace × FO)
   | .arith "+", [.lit (.int x), .lit (.int y)] => some ([], .lit (.int (x + y)))
@@ -188,6 +204,7 @@ def primFO : Prim → List FO → Option (Trace × FO)
   | .printf1, [.lit (.str fmt), v] => some ([format1 fmt v], .lit .unit)
   | .sprintf1, [.lit (.str fmt), v] => some ([], .lit (.str (format1 fmt v)))
   | .concat, [.lit (.str sep), .slice xs] => some ([], .lit (.str (sep.intercalate (xs.map display))))
+  | .interp parts, vs => (interpFO parts vs).map (fun s => ([], .lit (.str s)))
   | _, _ => none
 
 end Folang.Sem
